@@ -49,11 +49,16 @@ MethodVerdicts(o) ==
        (IF Method(o) = "electreIII" /\ HasEval(o) THEN C05(o) \cup C06(o) ELSE {})
 
 BiasContract(o, k, b) ==
-  IF b.name = "criteriaOmission" THEN C15Event(o, k, b)
+  IF b.name = "criteriaOmission" THEN C15Event(o, k, b) \cup C15Params(o, k, b)
   ELSE IF b.name = "preferenceReversal" THEN C16Event(o, k, b)
   ELSE IF b.name = "fatigue" THEN C17Event(o, k, b)
-  ELSE IF b.name = "criteriaConcealment" THEN C18Conceal(o, k, b)
-  ELSE IF b.name = "criteriaMixing" THEN C18Mix(o, k, b)
+  ELSE IF b.name = "criteriaConcealment" THEN
+       C18Conceal(o, k, b) \cup (LET rep == BiasEvents(o)[k].report.props IN
+                                 IF BiasEvents(o)[k].fired /\ Has(rep, "addedCriteria") /\ Len(rep.addedCriteria) = 1
+                                 THEN C18Params(o, k, rep.addedCriteria[1].id) ELSE {})
+  ELSE IF b.name = "criteriaMixing" THEN
+       C18Mix(o, k, b) \cup (LET rep == BiasEvents(o)[k].report.props IN
+                             IF BiasEvents(o)[k].fired /\ Has(rep, "newCriterion") THEN C18Params(o, k, rep.newCriterion.id) ELSE {})
   ELSE IF b.name = "anchoring" THEN C19Event(o, k, b)
   ELSE {}
 
